@@ -61,6 +61,9 @@ ArraysOK(i) == (HistoriesOK(i) /\ Traces[i].has_arr = 1) =>
     LET rows == Traces[i].arr IN
     /\ Len(rows) >= 1 /\ rows[1][1] = Traces[i].tmin
     /\ \A T \in RowTimes(rows) \cup HistTimes(i, Nodes(i)) : StepAt(rows, T) = CountsAt(i, Nodes(i), T)
+    \* continuous time: one row per event in the arrays, one row per event time in the summary - the same times
+    \* (also for events that change no reported count)
+    /\ Traces[i].cont = 1 => RowTimes(rows) = RowTimes(Traces[i].summ)
 QueriesOK(i) == HistoriesOK(i) =>
     \A q \in 1..Len(Traces[i].queries) :
         LET Q == Traces[i].queries[q] IN Q[3] = StatusAt(Hist(i, Q[1]), Q[2])
